@@ -190,6 +190,13 @@ pub fn entry_points() -> Vec<Ep> {
             let mut de = Deserializer::from_slice(&x).use_rawnumber();
             let _ = de.deserialize::<u8>()?;
             de.deserialize::<Value>().map(|v| dv(&v)) } },
+        // values must own their data: the input buffer is overwritten before the value is read
+        Ep { name: "value_from_slice_scrubbed", sem: Sem::Strict, utf8_only: false, pre: b"", post: b"", f: |b| { let mut x = b.to_vec(); let r = sonic_rs::from_slice::<Value>(&x); let r = r.map(|v| { x.iter_mut().for_each(|c| *c = b'#'); dv(&v) }); drop(x); r } },
+        Ep { name: "value_in_struct_scrubbed", sem: Sem::Strict, utf8_only: false, pre: b"{\"v\":", post: b"}", f: |b| { let mut x = wrap(b"{\"v\":", b, b"}"); let r = sonic_rs::from_slice::<WrapV>(&x); let r = r.map(|v| { x.iter_mut().for_each(|c| *c = b'#'); dv(&v.v) }); drop(x); r } },
+        Ep { name: "second_value_rawnum_scrubbed", sem: Sem::PRaw, utf8_only: false, pre: b"0 ", post: b"", f: |b| {
+            let mut x = wrap(b"0 ", b, b"");
+            let r = { let mut de = Deserializer::from_slice(&x).use_rawnumber(); let _ = de.deserialize::<u8>()?; de.deserialize::<Value>() };
+            let r = r.map(|v| { x.iter_mut().for_each(|c| *c = b'#'); dv(&v) }); drop(x); r } },
         Ep { name: "de_str_second_value", sem: Sem::PStrict, utf8_only: true, pre: b"0 ", post: b"", f: |b| {
             // second document of a stream: the copying (non-padded) DOM parser
             let x = wrap(b"0 ", b, b"");
@@ -444,7 +451,8 @@ impl<'a> Gen<'a> {
         for _ in 0..n {
             match self.rng.below(20) {
                 0 => { out.push(b'\\'); out.push(*self.rng.pick(b"\"\\/bfnrt")); }
-                1 => { out.extend_from_slice(format!("\\u{:04x}", self.rng.below(0xd800)).as_bytes()); }
+                1 => { if self.rng.chance(1, 3) { out.extend_from_slice(self.rng.pick(&["\\u000b", "\\u0000", "\\u001f", "\\u007f", "\\u0008", "\\u000c", "\\u2028", "\\u0022", "\\u005c"]).as_bytes()); }
+                       else { out.extend_from_slice(format!("\\u{:04x}", self.rng.below(0xd800)).as_bytes()); } }
                 2 => { let c = 0x10000 + self.rng.below(0x100000) as u32; let c = c - 0x10000;
                        out.extend_from_slice(format!("\\u{:04X}\\u{:04x}", 0xd800 + (c >> 10), 0xdc00 + (c & 0x3ff)).as_bytes()); }
                 3 => { let mut b = [0u8; 4]; let ch = char::from_u32(*self.rng.pick(&[0xe9u32, 0x4e2d, 0x1f600, 0x7ff, 0x800, 0xffff, 0x10ffff, 0x80])).unwrap();
@@ -481,6 +489,14 @@ impl<'a> Gen<'a> {
             for _ in 0..self.rng.range(1, 3) { out.push(*self.rng.pick(b"0123456789")); } }
     }
     pub fn value(&mut self, out: &mut Vec<u8>, depth: usize) {
+        if depth < 3 && self.rng.chance(1, 40) {
+            // a large object with repeated member names (order and duplicates matter; sort stability under sort_keys)
+            out.push(b'{');
+            let n = self.rng.range(18, 34);
+            for i in 0..n { if i > 0 { out.push(b','); } out.extend_from_slice(format!("\"m{}\":{}", self.rng.below(9), i).as_bytes()); }
+            out.push(b'}');
+            return;
+        }
         let pick = if depth >= 4 { self.rng.below(5) } else { self.rng.below(8) };
         match pick {
             0 => out.extend_from_slice(b"null"),
